@@ -8,6 +8,16 @@ CHECKS = {
         note="Coq kernel + vm_compute; hand-written model Model/{Text,Marker,Cell,Segment}.v; regex engine and str.isspace enter via exhaustive sweeps (H_regex over a 5-letter alphabet to length 7/9, H_isspace over all code points).",
         design="DESIGN.md section 5/C03",
     ),
+    "C14": dict(
+        text="Theorem: for every cell comparison and all pairs of tables with default row numbering, equals holds iff name, destination set, column names, units, row count agree and cells are pairwise equal; reflexivity and symmetry; a refutation theorem for the pre-repair code. Model tied to Table.equals by generated (t, mutate(t)) pairs evaluated with vm_compute; expected verdicts recomputed from the specifications.",
+        note="Coq kernel + vm_compute; model Model/Equals.v; H_eqv (_equal_or_same = token equality on generated scalar kinds) checked on all pairs of a value pool each run; pandas itertuples/shape semantics assumed.",
+        design="DESIGN.md section 5/C14",
+    ),
+    "C20": dict(
+        text="Theorems for every block sequence and every representation (abstract name extraction): stored list = TABLE blocks in order; len/iteration/indexing agree; unique/all/in are the filter-by-name view; construction fails iff a table block has no extractable name. Model (dict-of-lists + ordered list, as in the code) tied to TableBundle by generated block sequences in four representations.",
+        note="Coq kernel + vm_compute; model Model/Bundle.v; the regex used for cell-grid names is modelled by grid_name and tied by the generated grid cases; names without whitespace for grids.",
+        design="DESIGN.md section 5/C20",
+    ),
 }
 ALL = [f"C{n:02d}" for n in range(1, 21)]
 NOT_YET = {p: "check not built yet in this revision (planned, see DESIGN.md section 5); not a claim that the technique cannot apply" for p in ALL if p not in CHECKS}
